@@ -120,7 +120,11 @@ func (g *lgen) pct(p int) bool { return p > 0 && g.r.Intn(100) < p }
 
 func (g *lgen) fresh(prefix string) string {
 	g.nvar++
-	// variable names: [a-z_]+[a-z0-9_]*
+	// variable names: [a-z_]+[a-z0-9_]*; now and then a name that resembles a keyword or a
+	// reserved account
+	if g.r.Chance(1, 10) {
+		prefix = g.r.Pick("_", "world", "kept", "remaining_", "source_", "to_", "max", "send_", "vars_", "x", "overdraft_", "a_b_c_")
+	}
 	return fmt.Sprintf("%s%d", prefix, g.nvar)
 }
 
@@ -159,7 +163,9 @@ func SmallOrBig(r *rng.R, pBig int) *big.Int {
 			return r.Big(65)
 		}
 	}
-	switch r.Intn(11) {
+	switch r.Intn(12) {
+	case 11: // round / magic values
+		return bigOf(r.Pick("65535", "65536", "2147483647", "2147483648", "4294967295", "4294967296", "1000000000", "1000000000000000000", "100", "255", "256", "1024", "9007199254740993"))
 	case 10: // mid-size: 20..62 bits
 		return r.Big(20 + r.Intn(43))
 	case 0:
@@ -171,6 +177,11 @@ func SmallOrBig(r *rng.R, pBig int) *big.Int {
 	default:
 		return big.NewInt(int64(r.Intn(31)))
 	}
+}
+
+func bigOf(s string) *big.Int {
+	z, _ := new(big.Int).SetString(s, 10)
+	return z
 }
 
 func fitsInt(n *big.Int) bool {
@@ -305,6 +316,9 @@ func (g *lgen) portionLit(p *big.Rat) Expr {
 			if num.IsInt() {
 				s := num.Num().String()
 				if dec == 0 {
+					if g.r.Chance(1, 5) {
+						return &Percent{Text: s + "." + g.r.Pick("0", "00", "000") + "%"}
+					}
 					return &Percent{Text: s + "%"}
 				}
 				for len(s) <= dec {
@@ -494,9 +508,9 @@ func (g *lgen) stmt() {
 		var call *Call
 		val := g.anyValueExpr()
 		if g.r.Bool() {
-			call = &Call{Name: "set_tx_meta", Args: []Expr{&Str{S: g.r.Pick("k", "k2", "memo")}, val}}
+			call = &Call{Name: "set_tx_meta", Args: []Expr{&Str{S: g.metaKey()}, val}}
 		} else {
-			call = &Call{Name: "set_account_meta", Args: []Expr{g.accountExpr(g.account()), &Str{S: g.r.Pick("k", "k2", "memo")}, val}}
+			call = &Call{Name: "set_account_meta", Args: []Expr{g.accountExpr(g.account()), &Str{S: g.metaKey()}, val}}
 		}
 		g.c.Script.Stmts = append(g.c.Script.Stmts, call)
 		g.c.Tune = append(g.c.Tune, nil)
@@ -548,6 +562,13 @@ func (g *lgen) stmt() {
 		g.c.Script.Stmts = append(g.c.Script.Stmts, &Send{Sent: &SentValue{E: e}, Src: src, Dst: dst})
 		g.c.Tune = append(g.c.Tune, set)
 	}
+}
+
+func (g *lgen) metaKey() string {
+	if g.r.Chance(1, 8) {
+		return g.r.Pick("", "a b", "é", "K", "k.k", "key-with-a-rather-long-name-to-see-if-length-matters-anywhere-0123456789", "world", "<kept>")
+	}
+	return g.r.Pick("k", "k2", "memo")
 }
 
 func (g *lgen) anyValueExpr() Expr {
